@@ -1,5 +1,7 @@
 """C15 -- implied conditional independencies are enumerated exactly.
 
+R15.4  stateless: the enumeration and the graph operations under it keep nothing between calls.
+
 R15.1  every unordered pair once (combinations(V, 2)), conditioning sets drawn from V ∖ {a, b}, each tested with
        are_d_separated on the same graph; only separated judgements are yielded; first hit per pair ends the search.
 R15.2  size schedule and bound: powerset yields sizes in increasing order from 0; for an inclusive limit k the largest
@@ -33,7 +35,7 @@ def run(model: Model, rep: Report, tier: str) -> None:
         ".separated. minimal() is checked for one grouping key and a size-first policy. Truth of each verdict is C04's rules, re-run."
     )
     rep.trusted_base = ["itertools.combinations/groupby/chain, range", "C04 (re-run here)"]
-    rep.floors = {"R15.1": 2, "R15.2": 1, "R15.3": 1, "R4.1": 1, "R4.2": 1}
+    rep.floors = {"R15.1": 2, "R15.2": 1, "R15.3": 1, "R15.4": 5, "R4.1": 1, "R4.2": 1}
     from ..refcmp import load_reference, run_table
     from .common import NXMG
 
@@ -69,5 +71,10 @@ def run(model: Model, rep: Report, tier: str) -> None:
         ok = bool(rets) and all(r.value[0] == "tuplelit" and r.value[1] and r.value[1][0] == ("len", ("attr", j, "conditions")) for r in rets)
         (rep.proven if ok else rep.refuted)("R15.3", construct(pfn, "size-first"), "" if ok else
                                             "the topological policy does not order by the number of conditions first (the kept set need not have minimum size)", loc(pfn))
+    # the enumeration is a function of the graph as it is NOW: neither it nor the graph operations it relies on keep anything between calls
+    from .common import stateless_obligations
+    stateless_obligations(model, rep, "R15.4", [f"{CI}.d_separations", f"{CI}.get_conditional_independencies", f"{CI}.minimal", PS,
+                                                 f"{NXMG}.ancestors_inclusive", f"{NXMG}.subgraph", f"{NXMG}.nodes"],
+                          "implied independencies computed after the graph was extended can be those of the old graph")
     # verdicts: C04's pipeline
     c04.analyse_are_d_separated(model, rep)
